@@ -31,6 +31,14 @@ func c05Scopes(cfg deriveCfg) {
 	var copies [][]kv
 	sa, ra := derive("a", root, ref0, ".", cfg, &maps, &copies)
 	sb, rb := derive("b", root, ref0, ".", cfg, &maps, &copies)
+	// the caller reuses its tag maps afterwards: a scope's identity and tags were fixed when it
+	// was derived
+	for _, m := range maps {
+		for k := range m {
+			m[k] = "reused"
+		}
+		m["added-later"] = "x"
+	}
 	ea, eb := ra.effective(), rb.effective()
 	delim := verifrt.Or(hasDelim(ra.prefix), hasDelim(rb.prefix))
 	for _, e := range append(append([]kv{}, ra.tags...), rb.tags...) {
